@@ -821,6 +821,9 @@ pub fn execute(sc: &RegScenario, stats: &mut Stats) -> Outcome {
             }
             if renderable {
                 family_check(sc, &model, &t, &ctxs, i, stats, &mut out);
+                if sc.graph_model {
+                    crate::graph::check_outputs(&model, &t, i, stats, &mut out);
+                }
             }
             if sc.inherit_model {
                 if let Some((h, nt)) = crate::inherit::shape_hash(&model) {
